@@ -38,7 +38,7 @@ def ivd(vals, form, edges=("2020-12-31T00:00", "2021-01-01T12:00", "2021-01-05T0
 def gen(ch):
     cls = ch.free("class", CLASSES)
     date_tz = ch.pick("date_tz", [None, "CET", "UTC"])
-    form = ch.pick("form", ["list", "array", "index", "objarray", "index_freq"])
+    form = ch.pick("form", ["list", "array", "index", "objarray", "index_freq", "pylist"])
     when = ch.pick("when", ["before_setup", "after_setup"])
     win = ch.pick("window", [None, ("2021-01-01T06:00", "2021-01-02T18:00")])
     w = dict(start=win[0], end=win[1]) if win else {}
